@@ -43,6 +43,9 @@ def generate(rng, tier, prop='C13'):
     caps = [64, 100, 512, 4096, 5000, 65536]
     cap = rng.choice(caps)
     big = (4 << 20) if tier == 'thorough' else (256 << 10)
+    # (a message crosses the pipe in pieces of at most `cap` bytes, one system call each on either side: keep the
+    # largest message within what the step budget of a run can carry)
+    big = min(big, cap * 8000)
     lens = [0, 1, 2, 3, 4, 5, 100, 16383, 16384, 16385, cap - 1, cap, cap + 1, cap - 4, cap - 5,
             65535, 65536, 65537]
     nmsg = rng.randint(1, 6)
@@ -159,7 +162,11 @@ class _Obj:
 
 
 def execute(case, seed, choices=None):
-    k = new_kernel(seed, {'policy': case.get('policy', 'random'), 'horizon': 500.0, 'max_steps': 400000,
+    # the step budget grows with the work the case asks for (bytes / piece size, both directions, short I/O halves
+    # the pieces); it stays finite: a send that never finishes (livelock) is reported when it runs out
+    work = sum(m['len'] + m.get('pre', 0) + m.get('post', 0) for m in case['msgs']) // max(1, case['pipe_cap'])
+    k = new_kernel(seed, {'policy': case.get('policy', 'random'), 'horizon': 500.0,
+                          'max_steps': max(400000, 24 * work),
                           'pipe_cap': case['pipe_cap'], 'short_io': case['short_io'], 'eintr': case['eintr'],
                           'log_cap': 20000},
                    choices)
